@@ -13,7 +13,12 @@ func init() {
 		Kernels: []Kernel{
 			{Name: "pipeline", Pkg: ".", Files: []string{"root/fed.go", "root/c01.go"}, Entry: "VerifPipeline", Mode: "seq",
 				Quick: map[string]int{"k": 2, "three": 1}, Thorough: map[string]int{"k": 3, "three": 1},
-				Reach: []string{"pipeline completed"}, Functions: pipelineFns},
+				Reach: []string{"pipeline completed"}, Functions: pipelineFns,
+				Known: []string{"C01-default-var", "C01-directive-var", "C01-node-without-fragment"}},
+			{Name: "pipeline-abstract", Pkg: ".", Files: []string{"root/fed.go", "root/c01.go"}, Entry: "VerifPipelineAbstract", Mode: "seq",
+				Quick: map[string]int{"k": 2}, Thorough: map[string]int{"k": 3},
+				Reach: []string{"pipeline completed"}, Functions: pipelineFns,
+				Known: []string{"C01-abs-interface-field-plus-fragment", "C01-abs-id-next-to-fragment", "C01-abs-typename-next-to-union-fragment", "C01-abs-fragment-on-interface"}},
 		},
 		Assume: []string{
 			"gqlparser (lexer, parser, validator) runs natively on the concrete strings each path produces and is not encoded",
